@@ -508,10 +508,13 @@ class DFXPWriter(BaseWriter):
                     ))
                 styles += f' region="{region_id}"'
                 if self.write_inline_positioning:
+                    # an attribute the span already sets itself (text-align)
+                    # must not be written a second time
                     styles += ' ' + ' '.join(
                         [
                             f'{k_}="{v_}"'
                             for k_, v_ in list(region_attribs.items())
+                            if k_ not in content_with_style
                         ]
                     )
 
